@@ -259,6 +259,13 @@ impl CurveDist {
         }
     }
 
+    /// Verification hook: the retained samples `(p, tangent)` and the `spicy` flag of `from_curve`.
+    #[cfg(kurbo_verif)]
+    fn verif_samples(source: &impl ParamCurveFit, range: Range<f64>) -> (Vec<(Point, Vec2)>, bool) {
+        let cd = Self::from_curve(source, range);
+        (cd.samples.iter().map(|s| (s.p, s.tangent)).collect(), cd.spicy)
+    }
+
     fn compute_arc_params(&mut self, source: &impl ParamCurveFit) {
         const N_SUBSAMPLE: usize = 10;
         let (start, end) = (self.range.start, self.range.end);
@@ -331,6 +338,16 @@ impl CurveDist {
         }
         self.eval_arc(c, acc2)
     }
+}
+
+/// Verification hook: what `CurveDist::from_curve` samples for a source and range.
+#[cfg(kurbo_verif)]
+#[allow(missing_docs)]
+pub fn verif_curvedist_samples(
+    source: &impl ParamCurveFit,
+    range: Range<f64>,
+) -> (Vec<(Point, Vec2)>, bool) {
+    CurveDist::verif_samples(source, range)
 }
 
 /// As described in [Simplifying Bézier paths], strictly optimizing for
